@@ -864,15 +864,25 @@ class Machine:
         return v
 
     def int_sym(s, op, bits, a, b, flags):
-        if isinstance(a, Term) and a.sort == 'B':
+        if bits != 1 and isinstance(a, Term) and a.sort == 'B':
             a = mk_ite(a, 1, 0, 'I')
-        if isinstance(b, Term) and b.sort == 'B':
+        if bits != 1 and isinstance(b, Term) and b.sort == 'B':
             b = mk_ite(b, 1, 0, 'I')
         if bits == 1:
-            # i1 logic
+            # i1 logic on Boolean terms
             A = a if isinstance(a, Term) else bool(a)
             B = b if isinstance(b, Term) else bool(b)
-            raise EngineError('i1 arithmetic on int terms')
+            if isinstance(A, Term) and A.sort == 'I':
+                A = mk_cmp('ne', A, 0)
+            if isinstance(B, Term) and B.sort == 'I':
+                B = mk_cmp('ne', B, 0)
+            if op == 'and':
+                return mk_and(A, B)
+            if op == 'or':
+                return mk_or(A, B)
+            if op == 'xor':
+                return mk_or(mk_and(A, mk_not(B)), mk_and(mk_not(A), B))
+            raise EngineError(f'i1 arithmetic {op} on Boolean terms')
         a = s.sint(a, bits)
         b = s.sint(b, bits)
         if op in ('add', 'sub', 'mul'):
